@@ -297,6 +297,8 @@ def run(ctx):
     _r6_renders_whatever_is_stored(ctx, cg)
     # a lease whose row cannot be read is a lease missing from the listing: how the columns are read belongs to C18
     ctx.include("C18", rules=("R10",))
+    # the gauges are computed from the rows at the time of the scrape: the pool keeps no copy of a count that time alone makes stale
+    ctx.include("C18", rules=("R7",))
 
 
 def _agg_items(st):
